@@ -14,7 +14,10 @@ LEVEL_TEXT = ('Generated NNX object graphs (<= 8 nodes quick, <= 40 thorough; Mo
               'operation sequences; every result is compared with a canonical-form isomorphism oracle and a reference traversal, the '
               'input graph is snapshotted (canonical form + object identities) around every read-only call, filters partition by first '
               'match and merge is checked under permuted state order. Small scope: all graphs with <= 3 Module nodes, <= 2 Variables '
-              'and <= 2 attribute slots per node are enumerated in the thorough tier.')
+              'and <= 2 attribute slots per node are enumerated in the thorough tier.'
+              ' Graphs also contain namedtuple / OrderedDict containers, numpy-backed values and mutable metadata values;'
+              ' states are merged / applied in shuffled insertion orders; metadata and buffers of clones and updated'
+              ' graphs are poisoned.')
 LEVEL_NOTE = ('Plain list/tuple/dict containers have value semantics in graph.flatten by design, so identity preservation is demanded for '
               'Modules and Variables only. Dicts with mixed-type keys and cycles passing only through plain containers are not generated.')
 TECHNIQUE = 'runtime monitoring: canonical-form isomorphism oracle + shadow graph + flatten/unflatten invariant hooks on the real graph functions'
